@@ -128,20 +128,20 @@ type fnDecl struct {
 
 type pkgTr struct {
 	closureUse map[*ast.FuncLit]int // local closures: how often each was placed in line or spawned
-	fset      *token.FileSet
-	dir       string
-	module    string // Coq module name
-	objType   string
-	nested    map[string]bool // fields of the object that are objects with their own mutex
-	typeNames map[string]bool
-	funcs     map[string]*fnDecl
-	order     []string
-	fields    []string // declared fields of the object type (nested ones as a.b)
-	unknowns  []string
-	skipped   []string
-	structs   map[string]*ast.StructType
-	fieldType map[string]string
-	globals   []string
+	fset       *token.FileSet
+	dir        string
+	module     string // Coq module name
+	objType    string
+	nested     map[string]bool // fields of the object that are objects with their own mutex
+	typeNames  map[string]bool
+	funcs      map[string]*fnDecl
+	order      []string
+	fields     []string // declared fields of the object type (nested ones as a.b)
+	unknowns   []string
+	skipped    []string
+	structs    map[string]*ast.StructType
+	fieldType  map[string]string
+	globals    []string
 }
 
 // identIn: t mentions the identifier id as a whole word
